@@ -139,6 +139,15 @@ func (p *Prog) Pkg(rel string) *packages.Package {
 	return pk
 }
 
+// PkgOpt is Pkg without the failure: nil when the package is not loaded.
+func (p *Prog) PkgOpt(rel string) *packages.Package {
+	path := ModPath
+	if rel != "" && rel != "." {
+		path += "/" + rel
+	}
+	return p.Pkgs[path]
+}
+
 // SSAPkg returns the SSA package for a repo-relative path.
 func (p *Prog) SSAPkg(rel string) *ssa.Package {
 	p.BuildSSA()
